@@ -2,11 +2,4 @@ HOOK_COMMITS = []
 NOTES = ("All checks: bin/check <ID>. Fix commits made to /repo for genuine defects are listed in known_findings.json "
          "(status fixed); known findings (status known) print KNOWN-FINDING lines. See DESIGN.md.")
 NOT_YET = {}
-META = {
- "C12": {
-  "text": "Coq theorems (Props/C12.v, 13, closed under the global context) state for ALL slices, index ranges, predicates and argument lists that the model of each sliceOps function equals its list/set specification (whole backing array for Remove/Cut/FilterInPlace/Pop; NoDup + exact membership for the set functions, Disjoin = 'exactly one argument contains x'). The model is tied to /repo on every run by executing the real functions (int, string and pointer element types) on every equality pattern up to a length bound plus random inputs and comparing in Coq.",
-  "design_ref": "DESIGN.md section 7, C12",
-  "note": "Trusted: Coq kernel + vm_compute; the hand-written model (validated by this run's cases only); builtin copy/append/map semantics modelled by contract; result/input aliasing is outside the value-semantics model (inputs are snapshotted by the harness).",
-  "technique": "Coq proof of list/set specifications over an executable model + differential correspondence (vm_compute) against the Go code",
- },
-}
+META = {}
